@@ -449,6 +449,7 @@ func (s *storage) createTable(archetype *archetype, relations []relationID) *tab
 	if uint8(len(relations)) < archetype.numRelations {
 		panic("relation targets must be fully specified")
 	}
+	checkRelationsDistinct(relations)
 	for _, rel := range relations {
 		idx := archetype.componentsMap[rel.component.id]
 		targets[idx] = rel.target
